@@ -31,19 +31,19 @@ def fresh_open(cfg, harness):
     return _fresh_open[k]
 
 
-def continuation(cfg, history, harness, j):
+def continuation(cfg, history, harness, j, latency=0.0):
     """Pj: refuse the next j connects, then cooperate. Returns list of (key, detail)."""
     v = []
     w, mon = explore.build(cfg, history, harness)
     c = w.cfg
     start_state = w.reported_state()
     start = 'from %s%s' % (start_state, '+attempt' if w.connecting() else '+conn' if w.readable() else '+closing' if w.disconnecting() else '')
-    sc = explore.Script(cfg, peer_hold=PEER_HOLD, refuse_first=j)
+    sc = explore.Script(cfg, peer_hold=PEER_HOLD, refuse_first=j, connect_latency=latency)
     H = min(c['hold'], PEER_HOLD)
     if w.readable() and start_state in ('OPENCONFIRM', 'ESTABLISHED'):
         H = min(c['hold'], sc.session_peer_hold(w.readable()[-1].transport))
     slack = 1.0
-    bound = (j + 1) * (c['idle_hold'] + max(c['retry'], 30) + slack)
+    bound = (j + 1) * (c['idle_hold'] + max(c['retry'], 30) + slack + latency)
     t0 = w.sim.now
     last_refusal = [None]
     notifs = []
@@ -74,7 +74,7 @@ def continuation(cfg, history, harness, j):
             return ww.sim.now - t0 > bound
         return ww.sim.now - est_at[0] >= 3 * (H or 180)
 
-    tr = explore.run_script(w, harness, sc, max_steps=400, until=until, on_step=on_step)
+    tr = explore.run_script(w, harness, sc, max_steps=400 + 6 * j, until=until, on_step=on_step)
     tail = [(x[0], x[2], round(x[3] - t0, 3)) for x in tr][-14:]
     if any(x[4] and any(e[0] in ('exc', 'overrun') for e in x[4]) for x in tr):
         v.append(('C02|P%d|exception or overrun during recovery|%s' % (j, start), {'trace': tail}))
@@ -145,6 +145,7 @@ CONFIGS = {
                  {'retry': 40, 'hold': 9, 'idle_hold': 30}, {'retry': 30, 'hold': 0, 'idle_hold': 30}],
 }
 FROM_EST = {'quick': 4, 'thorough': 6}
+LONG_RUNS = ((130, 0.1), (40, 0.0))
 DEPTH = {'quick': 6, 'thorough': 8}
 
 
@@ -160,6 +161,14 @@ def run(tier, seed):
                     run_state_checks=True)
         explore.bfs(h, cfg, FROM_EST[tier], col, seed=seed, result=res, merge_all=(tier == 'thorough'),
                     run_state_checks=True, start=(('TICK', 0), ('CONN_OK', 0), ('RX', 0, 'OPEN_OK'), ('RX', 0, 'KA')))
+    # long runs: 130 refused attempts in a row (each answered 100 ms after connectTCP), then a peer that accepts after 100 ms -
+    # what accumulates over many cycles (a shrinking timer, a growing list) shows only here
+    long_runs = 0
+    for cfg in CONFIGS[tier]:
+        for j, lat in LONG_RUNS:
+            for k, det in continuation(cfg, (), h, j, latency=lat):
+                col.add(k, {'cfg': cfg, 'history': [], 'long_run': [j, lat]}, det)
+            long_runs += 1
     explore.close_pool()
     n_new, n_known, summary = col.finish('e1-state+continuation')
     cov = {
@@ -168,7 +177,7 @@ def run(tier, seed):
         'samples': res.samples, 'max_depth': res.max_depth, 'closed': res.closed,
         'depth_cap_hit': res.depth_cap_hit, 'distinct_observation_classes': len(res.obs_classes),
         'merges': res.merges, 'merges_checked': res.merges_checked, 'merges_refuted_and_undone': res.refinements[:5], 'n_merges_refuted': len(res.refinements), 'diverged_transitions': res.diverged,
-        'continuations_run': res.state_checks * len(h.policies), 'policies': ['P%d' % j for j in h.policies],
+        'continuations_run': res.state_checks * len(h.policies), 'long_runs': long_runs, 'long_run_shapes': [list(x) for x in LONG_RUNS], 'policies': ['P%d' % j for j in h.policies],
         'configs': CONFIGS[tier], 'alphabet': list(h.messages), 'violation_keys': summary,
         'explanation': 'from every state reached by the adversarial BFS (depth %d, operator never stops) the environment '
                        'switches to a deterministic cooperative continuation Pj (refuse j connects, then cooperate); '
@@ -186,7 +195,11 @@ def replay(path):
     h = Harness()
     cfg = d['witness']['cfg']
     hist = [tuple(e) for e in d['witness']['history']]
-    a, b = report.twice(h.state_checks, cfg, hist, None, None)
+    if d['witness'].get('long_run'):
+        j, lat = d['witness']['long_run']
+        a, b = report.twice(continuation, cfg, tuple(hist), h, j, lat)
+    else:
+        a, b = report.twice(h.state_checks, cfg, hist, None, None)
     if repr(a) != repr(b):
         print('HARNESS-ERROR: replay is not deterministic')
         return 2
